@@ -220,6 +220,8 @@ class OrderEnv:
             return None
         if isinstance(e, ast.Name):
             return self.env.get(e.id)
+        if isinstance(e, ast.Tuple):
+            return ('tuple',) + tuple(self.order_of(x, depth + 1) for x in e.elts)
         if isinstance(e, ast.Call):
             nm = short(e)
             if nm in ('unique', 'sorted', 'sort') and (isinstance(e.func, ast.Name) or norm(e.func).split('.')[0] in ('np', 'numpy', 'da')):
@@ -265,6 +267,11 @@ class OrderEnv:
                                 sinks.append((s, self.order_of(k.value)))
                 elif isinstance(t, ast.Subscript) and const(t.slice) == 'zone':
                     sinks.append((s, self.order_of(s.value)))
+                elif isinstance(t, (ast.Tuple, ast.List)) and all(isinstance(x, ast.Name) for x in t.elts):
+                    # a, b = <pair>: component-wise (a helper returning (all zones, selected zones), read in place)
+                    o = self.order_of(s.value)
+                    for k_, x in enumerate(t.elts):
+                        self.env[x.id] = o[1 + k_] if isinstance(o, tuple) and o and o[0] == 'tuple' and len(o) == len(t.elts) + 1 else None
             elif isinstance(s, ast.If):
                 e0 = dict(self.env)
                 self.run(s.body, sinks)
@@ -350,9 +357,10 @@ def check_zone_labels(prog, rep, fs, entry_of):
     for f in fs:
         if f.is_lambda:
             continue
-        oe = OrderEnv(prog, f, param_orders.get(f.qualname))
+        fv = _view(prog, f)
+        oe = OrderEnv(prog, fv, param_orders.get(f.qualname))
         sinks = []
-        oe.run(f.node.body, sinks)
+        oe.run(fv.node.body, sinks)
         for s, o in sinks:
             n += 1
             rep.add('Z2', f, entry_of(f), norm(s), s.lineno, o == ASC,
@@ -1771,6 +1779,29 @@ def check_crosstab_keys(prog, rep, m, entry):
                         strides_of_sorted(za.args[comp - 1]) and isinstance(ka, App) and ka.name == 'elem' and ka.args[0] == ba.args[0] and \
                         ka.args[1] == ba.args[1]
                 okc = okb and end == brk and L.pre.get(n_) == Rat.const(0)
+            elif not phis:
+                # no running break: the previous break read directly, `breaks[j] - (breaks[j - 1] if j > 0 else 0)` - evaluated
+                # for categories 0, 1 and 4 on a model break vector (squares, so that no other pair of entries gives the count)
+                from fractions import Fraction as _F
+                from .kutil import CannotEvaluate as _CE, evaluate as _ev
+
+                def strides_of_sorted(x):
+                    return 'call:_strides(' in repr(x) and UC in repr(x) and 'numpy.sort' in repr(x)
+                bat = [a_ for a_ in walk_atoms(v) if isinstance(a_, App) and a_.name in ('getitem', 'read', 'cell?') and strides_of_sorted(a_.args[0])]
+                jat = {a_ for b_ in bat for x_ in b_.args[1:] if isinstance(x_, Rat) for a_ in x_.atoms()}
+                if bat and len(jat) == 1:
+                    J_ = next(iter(jat))
+                    try:
+                        got_ = []
+                        for jv in (0, 1, 4):
+                            def hook(key_, idx_):
+                                if not strides_of_sorted(key_) or len(idx_) != 1 or idx_[0] < 0:
+                                    raise _CE('read of %r at %r' % (key_, idx_))
+                                return _F((idx_[0] + 2) ** 2 + 1)
+                            got_.append(_ev(v, {J_: _F(jv), '__read__': hook}))
+                        okc = got_ == [_F((jv + 2) ** 2 + 1 - (((jv + 1) ** 2 + 1) if jv > 0 else 0)) for jv in (0, 1, 4)]
+                    except _CE:
+                        okc = False
         sel = any('in(' in repr(g_) and any(c_ in repr(g_) for c_ in CI) for g_ in guards)
         okall = okall and okk and okc and sel
         n += 1
@@ -1869,6 +1900,26 @@ def check_crosstab_keys(prog, rep, m, entry):
                             a = env[a.id]
                         if is_lookup(a) and forwards(h, p):
                             return True
+                        # ... or a helper that is handed the caller's `agg` itself and does the lookup
+                        if isinstance(a, ast.Name) and a.id in AG and looks_up(h, p):
+                            return True
+            return False
+
+        def looks_up(h, p):
+            stored = any(isinstance(x, ast.Name) and x.id == p and isinstance(x.ctx, ast.Store) for x in ast.walk(h.node))
+            env_h = straightline_env(h.node.body)
+            for c in calls(h.node):
+                g_ = prog.resolve_callable(h, h.module, c.func)
+                if isinstance(g_, Func) and g_.name == '_single_zone_crosstab_3d' and not stored:
+                    b = _bind_args(g_, c)
+                    a = b.get(g_.params[-1]) if b else (c.args[-1] if c.args else None)
+                    if isinstance(a, ast.Name) and a.id in env_h:
+                        a = env_h[a.id]
+                    arms = [a.body, a.orelse] if isinstance(a, ast.IfExp) else [a]
+                    texts = ('_DEFAULT_STATS[%s]' % p, '_DEFAULT_STATS.get(%s)' % p)
+                    if a is not None and any(norm(x) in texts for x in arms) and \
+                            all(norm(x) in texts or (isinstance(x, ast.Constant) and x.value is None) for x in arms):
+                        return True
             return False
 
         def forwards(h, p):
